@@ -11,6 +11,7 @@ From I18n Require Import Lib.Outcome Model.IntExpr Model.PluralForms Model.Tags 
   Model.Header Generated.HeaderFields Generated.SpecialDomains Generated.UcdHeader.
 From I18n Require Import Lib.Outcome Model.IntExpr Model.PluralForms Model.Ling Model.LingData.
 From I18n Require Import Lib.Outcome Model.IntExpr Model.PluralForms Model.MoParser.
+From I18n Require Import Lib.Outcome Model.IntExpr Model.PluralForms Model.Encodings Model.Iconv.
 Extraction Language OCaml.
 Extraction "model.ml"
   IntExpr.parse_string IntExpr.pyeval IntExpr.codomain IntExpr.period
@@ -26,4 +27,10 @@ Extraction "model.ml"
   Ling.parse_language Ling.parse_language_Z Ling.str_language Ling.fix_codes Ling.cli_language Ling.lookup_munched
   Ling.lcmessages_parent Ling.basename Ling.splitext Ling.lg_endswith Ling.s_dot_po Ling.check_language LingData.gen_cfg
   MoParser.mo_run MoParser.mo_parse
+  Encodings.cm_decode Encodings.cm_encode Encodings.cm_build Encodings.is_portable_encoding
+  Encodings.propose_portable_encoding Encodings.is_ascii_compatible_encoding Encodings.classify
+  Encodings.codec_search Encodings.get_unrepresentable_characters Encodings.unrepresentable_tag_args
+  Encodings.real_enc_data Encodings.real_oracle Encodings.charmap_table Encodings.list_eqb
+  Encodings.ascii_lower Encodings.ascii_upper
+  Iconv.iconv_decode Iconv.iconv_encode
   .
